@@ -15,6 +15,16 @@ VARIABLE i
 SideOf(s) == [rows |-> Range(s.rows), ranks |-> Range(s.ranks), iters |-> Range(s.iters)]
 TableNames(r) == { r.table[j].name : j \in DOMAIN r.table }
 RowOfName(r, n) == r.table[CHOOSE j \in DOMAIN r.table : r.table[j].name = n]
+\* the second comparison of the history (same objects, the other name mode)
+Table2OK(r, c, t) ==
+    LET sh == ~r.short
+        names == NamesOf(c, r.dev, sh) \cup NamesOf(t, r.dev, sh)
+        T == r.table2
+    IN /\ { T[j].name : j \in DOMAIN T } = names /\ Len(T) = Cardinality(names)
+       /\ \A j \in DOMAIN T : T[j].name \in names =>
+             /\ T[j].cc = CountOf(c, r.dev, sh, T[j].name) /\ T[j].tc = CountOf(t, r.dev, sh, T[j].name)
+             /\ T[j].cd = DurOf(c, r.dev, sh, T[j].name) /\ T[j].td = DurOf(t, r.dev, sh, T[j].name)
+             /\ T[j].dc = T[j].tc - T[j].cc /\ T[j].dd = T[j].td - T[j].cd
 Sign(d) == IF d > 0 THEN "+" ELSE IF d < 0 THEN "-" ELSE "="
 ClassSets(r) == [k \in Classes |-> Range(r.classes[k])]
 
@@ -38,6 +48,7 @@ C17(r) ==
     classes_cover    |-> r.hasClasses => UNION { ClassSets(r)[k] : k \in Classes } = NamesOf(c, r.dev, FALSE) \cup NamesOf(t, r.dev, FALSE),
     classes_meaning  |-> r.hasClasses => \A k \in Classes : \A n \in ClassSets(r)[k] :
                             ClassOfCounts(CountOf(c, r.dev, FALSE, n), CountOf(t, r.dev, FALSE, n)) = k,
+    second_call_other_names |-> Table2OK(r, c, t),
     self_compare |-> r.self => /\ \A j \in DOMAIN r.table : r.table[j].dc = 0 /\ r.table[j].dd = 0
                                /\ (r.hasClasses => \A k \in Classes \ {"unchanged"} : ClassSets(r)[k] = {}) ]
 
